@@ -11,11 +11,16 @@ CONF = {
             'Reassembled calls (skip, bytes, start, end), StreamFactory.New and ReassemblyComplete are compared with the model; '
             'the oracle rebuilds each stream by offsets against S. Tags are reported by the model (branches taken).',
     'shrink_keep_first': 2,
-    'assumptions': ['window hypothesis W: all live offsets of one stream within 2^30 (streams here are <= 6000 bytes)',
+    'assumptions': ['window hypothesis W (W_run): before every step the live offsets (delivery point, buffered pages, arriving segment) lie within 2^30; generated streams are <= 6000 bytes so W holds by C10_stream_short',
                     'Go int64 arithmetic of Sequence never overflows (values < 2^34, proved: C10_no_int64_overflow)',
                     'one Assembler, one StreamPool, one connection key; no concurrency (C12 covers that)'],
     'trusted_base': ['model: coq/Model/C10Model.v is a hand transcription of tcpassembly/assembly.go:57-69, 238-290, 536-783 '
-                     'for one connection key (doubly linked page list as a list)'],
-    'explanation': 'Props/C10.v proves the sequence arithmetic (diff_window, Add), byteSpan, the in-order path, sortedness of the '
-                   'queue under insertion and the stream invariant on the model; the correspondence run ties the model to assembly.go.',
+                     'for one connection key (doubly linked page list as a list)',
+                     'ghost offsets (Segment goff, p_off, c_pos) in the model are only copied, never tested (by inspection); they state W'],
+    'explanation': 'Props/C10.v proves on the model: Sequence arithmetic (diff_window, Add), byteSpan, the in-order path, ordered insertion, '
+                   'and C10_stream (DESIGN 5) for every stream/ISN/history under the per-step window hypothesis: no panic, every element at its '
+                   'absolute offset equals the slice of S, Skip=-1 only as first element of a stream without SYN, Skip=0 when no limit fires; '
+                   'C10_window_necessary shows misbehaviour outside W. The model is the REPAIRED assembly.go (late-SYN fix of agent-c10, lastSeen '
+                   'reset and limit loop of agent-c11); the correspondence run ties it to the code. Not proved, only tested by the oracle: a '
+                   'Skip never covers bytes that had been received (minimality), completed streams lost nothing.',
 }
